@@ -15,6 +15,8 @@
   codec <names>               the `S<w>` table of np.char.encode(names) and its decoding
   saveloadb <cycles> <raw>    byte-level save/load cycles
   space <cycles> <ctrl> <tmap> <smap>   ExperimentSpace save/load cycles
+  concat <k> <raw> ... <raw>  Screen.concat of k constructed screens (k = 2: Screen.combine); a raw that does not
+                              construct answers `parent-<err>`
 -/
 import Batchie.Model.ScreenIO
 import Batchie.Model.Retro
@@ -66,8 +68,26 @@ def showSpace (e : Space) : String :=
     ++ "|sn=" ++ showList showName "," e.snames ++ "|si=" ++ showIds e.sids ++ "|ctrl=" ++ showName e.ctrl
     ++ "|nt=" ++ toString e.nUniqueTreatments ++ "|ns=" ++ toString e.nUniqueSamples
 
+/-- split a token list into `k` raws of ten tokens each -/
+def parseRaws? : Nat → List String → Option (List Raw)
+  | 0, [] => some []
+  | 0, _ => none
+  | k + 1, toks => do
+    if toks.length < 10 then none
+    let r ← parseRaw? (toks.take 10)
+    let rest ← parseRaws? k (toks.drop 10)
+    pure (r :: rest)
+
 def handle : List String → Option String
   | "hist" :: ops :: rest => histWith step ops rest
+  | "concat" :: k :: rest => do
+      let k ← parseNat? k
+      let raws ← parseRaws? k rest
+      match raws.mapM mk? with
+      | .error e => pure ("parent-" ++ showErr e)
+      | .ok ss => match concat ss with
+        | .error e => pure (showErr e)
+        | .ok t => pure (showStage t)
   | "histold" :: ops :: rest => histWith stepOld ops rest
   | "setobs" :: sel :: vals :: rest => do
       let r ← parseRaw? rest
